@@ -41,7 +41,17 @@ RULE = (
     "same object), optionally overwritten by the caller afterwards, run under auto_finalize / an ExitStack of `with "
     "writer` / explicit initialize-finalize); non-trivial = at least two writers received rows; text readers and "
     "writers take a separator from {tab, comma, semicolon, bar}; in-memory readers also through "
-    "DataFrameReader.from_series / from_array; get_column_names() is compared for every reader"
+    "DataFrameReader.from_series / from_array; get_column_names() is compared for every reader; "
+    "second pass: reader trees up to depth 3 (rename over rename, computed over computed / over a renamed reader, join "
+    "in join, computed below a join or a rename), rename maps that permute old names, Parquet files written by pandas "
+    "with a stored index (12% of the single-base Parquet fixtures; judged by the specification under either consistent "
+    "view of such a file), 20% of the reader objects used again (second read, two more iterators consumed "
+    "alternately), tables of 150-5000 rows; cells include NaN, +-inf and the int64 / 2^53 boundaries; writer options "
+    "left to their defaults, column_types for text writers, buffered appends with permuted columns / dict keys (spec "
+    "only); calls case = (1-3 writer objects from from_suffix for ONE file, a program of episodes: initialize() by one "
+    "object followed by segments append_data...;finalize() by any objects | write(frame); checked after every "
+    "episode; 15% free text programs judged against the model only); out-of-domain requests (chunk size 0, unknown "
+    "column) are compared with the model's rejections"
 )
 
 # values that survive pandas' CSV type inference unchanged (everything else is excluded and listed in the evidence)
@@ -54,10 +64,16 @@ CSV_EXCLUDED = [
     "True", "False", "true", "FALSE", "line\nbreak", "cr\rx",
 ]
 WIDE_STR = CSV_SAFE_STR + ["", "NA", "nan", "None", "1", "1.5", "True", "line\nbreak"]
-NAME_POOL = ["a", "b", "score", "Spec Id", "x y", "É", "c1", "target", "peptide", "q-value", "d", "e_f"]
+NAME_POOL = ["a", "b", "score", "Spec Id", "x y", "É", "c1", "target", "peptide", "q-value", "d", "e_f",
+             # second pass: names that look like a number / contain a separator character
+             "1", "a,b", "pi|pe;x"]
 SEPS = ["\t", "\t", ",", ";", "|"]
 BASES = ("csv", "pq", "frame", "series", "array")
 FLOATS = [0.0, -0.0, 0.5, -1.25, 2.0, 0.1, 1e22, 1e-5, 3.141592653589793, -7.0, 1234.5, 5e-324, 1.7976931348623157e308]
+# second pass: cells at the edge of the numeric types (canonical atoms keep them apart: "?nan", "finf", "f-inf")
+EDGE_FLOATS = [float("nan"), float("inf"), float("-inf"), 2.0 ** 53 + 2.0, -2.0 ** 63]
+EDGE_INTS = [2 ** 63 - 1, -2 ** 63, 2 ** 53 + 1, -(2 ** 53) - 1]
+BIG = 2 ** 60
 
 
 # ----------------------------------------------------------------------------------------------------------
@@ -81,8 +97,12 @@ def cell_atom(v) -> str:
 
 def gen_value(rng, typ, csv_safe):
     if typ == "int":
+        if rng.random() < 0.04:
+            return rng.choice(EDGE_INTS)
         return rng.choice([0, 1, -1, 7, 42, -300, 2**40 + 3, rng.randint(-10**6, 10**6)])
     if typ == "float":
+        if rng.random() < 0.06:
+            return rng.choice(EDGE_FLOATS)
         return rng.choice(FLOATS) if rng.random() < 0.7 else rng.randint(-8000, 8000) / rng.choice([1, 2, 4, 8, 16])
     if typ == "bool":
         return rng.random() < 0.5
@@ -112,6 +132,7 @@ def make_df(names, types, rows, index=None, str_object=False):
 
 
 PA_TYPES = {"int": pa.int64(), "float": pa.float64(), "bool": pa.bool_(), "str": pa.string()}
+NP_TYPES = {"int": np.dtype("int64"), "float": np.dtype("float64"), "bool": np.dtype("bool"), "str": np.dtype("O")}
 
 
 def canon_df(df):
@@ -153,7 +174,7 @@ class Work:
         shutil.rmtree(self.dir, ignore_errors=True)
 
 
-def gen_base(rng, kind, names, n, index=None):
+def gen_base(rng, kind, names, n, index=None, allow_pidx=False):
     csv = kind == "csv"
     if kind == "frame" and len(names) == 1 and rng.random() < 0.35:
         # one-column in-memory readers built by DataFrameReader.from_series / from_array
@@ -172,6 +193,15 @@ def gen_base(rng, kind, names, n, index=None):
         node["ndarray"] = rng.random() < 0.5
     if kind == "pq":
         node["rg"] = rng.choice([1, 2, 3, 5, max(1, n), 1000])
+        if allow_pidx and rng.random() < 0.12:
+            # second pass: a Parquet file as pandas writes it for a frame with a non-default index
+            # (`df.to_parquet(path)`): the labels are stored in the file (column `__index_level_0__` resp.
+            # RangeIndex metadata) and pyarrow restores them in `to_pandas()`
+            if rng.random() < 0.5:
+                node["pidx"], node["index"] = "stored", rng.sample(range(0, 60 if n <= 12 else 4 * n), n)
+            else:
+                start = rng.choice([1, 5, 40])
+                node["pidx"], node["index"] = "range", list(range(start, start + n))
     if kind == "frame":
         node["index"] = list(index) if index is not None else list(range(n))
         node["obj"] = rng.random() < 0.5
@@ -186,7 +216,7 @@ def table_of(node):
     t = node["t"]
     if t in BASES:
         n = len(node["rows"])
-        idx = list(node["index"]) if t in ("frame", "series") else list(range(n))
+        idx = list(node["index"]) if t in ("frame", "series") or node.get("pidx") else list(range(n))
         return list(node["names"]), idx, [[cell_atom(v) for v in r] for r in node["rows"]]
     if t == "mapped":
         names, idx, rows = table_of(node["sub"])
@@ -226,6 +256,15 @@ def build_reader(node, work):
         return TabularDataReader.from_path(p) if sep == "\t" else TabularDataReader.from_path(p, sep=sep)
     if t == "pq":
         p = work.path(".parquet")
+        if node.get("pidx"):
+            df = make_df(node["names"], node["types"], node["rows"])
+            if node["pidx"] == "range":
+                start = node["index"][0] if node["index"] else 5
+                df.index = pd.RangeIndex(start, start + len(df))
+            else:
+                df.index = pd.Index(list(node["index"]), dtype="int64")
+            df.to_parquet(p, row_group_size=node["rg"])
+            return TabularDataReader.from_path(p)
         schema = pa.schema([(n, PA_TYPES[ty]) for n, ty in zip(node["names"], node["types"])])
         tab = pa.Table.from_pandas(make_df(node["names"], node["types"], node["rows"]), preserve_index=False,
                                    schema=schema)
@@ -329,8 +368,11 @@ def keep_rows(node, keep):
     d = dict(node)
     if t in BASES:
         d["rows"] = [node["rows"][i] for i in keep]
-        if t in ("frame", "series"):
+        if t in ("frame", "series") or node.get("pidx") == "stored":
             d["index"] = [node["index"][i] for i in keep]
+        elif node.get("pidx") == "range":
+            start = node["index"][0] if node["index"] else 5
+            d["index"] = list(range(start, start + len(keep)))
     elif t == "joined":
         d["subs"] = [keep_rows(s, keep) for s in node["subs"]]
     else:
@@ -338,23 +380,62 @@ def keep_rows(node, keep):
     return d
 
 
-def gen_tree(rng, nmax):
+def accepts_none(node):
+    """does the reader tree accept `columns=None`?  (a computed-column reader anywhere below a join / rename that
+    hands `None` on does not: `_reader_columns(None)` raises)"""
+    t = node["t"]
+    if t in BASES:
+        return True
+    if t == "computed":
+        return False
+    if t == "joined":
+        return all(accepts_none(s_) for s_ in node["subs"])
+    return accepts_none(node["sub"])
+
+
+def has_stored_index(node):
+    t = node["t"]
+    if t in BASES:
+        return bool(node.get("pidx"))
+    if t == "joined":
+        return any(has_stored_index(s_) for s_ in node["subs"])
+    return has_stored_index(node["sub"])
+
+
+SHAPES = 2 * ["base", "base", "mapped", "joined", "joined", "computed", "computed-joined", "mapped-joined",
+              "joined-mapped"] + [
+    # second pass: deeper compositions (the theorems are compositional, the generator was not)
+    "mapped-mapped", "computed-computed", "joined-nested", "joined-computed", "mapped-computed",
+    # the pipeline's composition (brew_rollup.py:296-315): a computed column over a renamed file reader
+    "computed-mapped", "computed-mapped"]
+
+
+def gen_tree(rng, nmax, allow_pidx=True, force_n=None):
     n = rng.choice([0, 0, 1, 1, 2, 3, 4, 5, 6, 7, 8, 10, 12])
     n = min(n, nmax)
+    if force_n is not None:
+        n = force_n
     ncols = rng.choice([1, 2, 2, 3, 3, 4, 5])
     names = rng.sample(NAME_POOL, ncols)
-    shape = rng.choice(["base", "base", "mapped", "joined", "joined", "computed", "computed-joined", "mapped-joined",
-                        "joined-mapped"])
+    shape = rng.choice(SHAPES)
     kinds = ["csv", "pq", "frame"]
     custom_index = None
 
-    def base(kind, nm, index=None):
-        return gen_base(rng, kind, nm, n, index)
+    def base(kind, nm, index=None, pidx=False):
+        return gen_base(rng, kind, nm, n, index, allow_pidx=pidx and allow_pidx)
 
     pool = [x for x in NAME_POOL + ["Z1", "Z2", "Z3", "Z4", "Z5"] if x not in names]
 
     def rename_map(nm):
         m = {}
+        if len(nm) >= 2 and rng.random() < 0.2:
+            # second pass: new names taken from the old ones (a swap / rotation of columns): injective on the
+            # columns, but every new name is also an old name
+            k = rng.randint(2, len(nm))
+            sub = rng.sample(list(nm), k)
+            for x, y in zip(sub, sub[1:] + sub[:1]):
+                m[x] = y
+            return m
         for x in nm:
             if rng.random() < 0.6 and pool:
                 m[x] = pool.pop(rng.randrange(len(pool)))
@@ -371,37 +452,15 @@ def gen_tree(rng, nmax):
             prev = c
         return parts
 
-    if shape == "base":
-        kind = rng.choice(kinds)
-        if kind == "frame" and rng.random() < 0.4:
-            custom_index = rng.sample(range(0, 50), n)
-        tree = base(kind, names, custom_index)
-    elif shape == "mapped":
-        tree = {"t": "mapped", "sub": base(rng.choice(kinds), names), "map": rename_map(names),
-                "via_from_path": rng.random() < 0.7}
-    elif shape in ("joined", "computed-joined", "mapped-joined", "joined-mapped"):
-        all_frames = rng.random() < 0.2
-        if all_frames and rng.random() < 0.5:
-            custom_index = rng.sample(range(0, 50), n)
-        subs = []
-        for part in split(names):
-            kind = "frame" if all_frames else rng.choice(kinds)
-            b = base(kind, part, custom_index if kind == "frame" else None)
-            if shape == "joined-mapped" and rng.random() < 0.6:
-                b = {"t": "mapped", "sub": b, "map": rename_map(part), "via_from_path": rng.random() < 0.7}
-            subs.append(b)
-        tree = {"t": "joined", "subs": subs}
-        if shape == "mapped-joined":
-            tree = {"t": "mapped", "sub": tree, "map": rename_map(table_of(tree)[0])}
-    else:
-        tree = base(rng.choice(kinds), names)
-    if shape in ("computed", "computed-joined"):
+    def computed_over(tree, col):
         tnames = table_of(tree)[0]
-        col = rng.choice(["k", "is_decoy", "new col"])
         int_cols = []
         if tree["t"] in BASES:
-            int_cols = [x for x, ty in zip(tree["names"], tree["types"]) if ty == "int"]
+            int_cols = [x for k_, (x, ty) in enumerate(zip(tree["names"], tree["types"])) if ty == "int"
+                        and all(abs(r[k_]) < BIG for r in tree["rows"])]
         r = rng.random()
+        if shape != "computed":
+            int_cols = []
         if r < 0.35:
             fn = ["const", rng.choice([True, False, 7, "lbl"])]
         elif r < 0.75 or not int_cols:
@@ -409,7 +468,53 @@ def gen_tree(rng, nmax):
         else:
             fn = ["addcol", rng.choice(int_cols), rng.choice([1, 100])]
         assert col not in tnames
-        tree = {"t": "computed", "sub": tree, "col": col, "fn": fn}
+        return {"t": "computed", "sub": tree, "col": col, "fn": fn}
+
+    # (a function of a cell needs its column in every selection: only generated for a top-level computed reader,
+    # where gen_cols adds the column)
+
+    if shape == "base":
+        kind = rng.choice(kinds)
+        if kind == "frame" and rng.random() < 0.4:
+            custom_index = rng.sample(range(0, 50 if n <= 12 else 4 * n), n)
+        tree = base(kind, names, custom_index, pidx=True)
+    elif shape in ("mapped", "mapped-mapped", "computed-mapped"):
+        tree = {"t": "mapped", "sub": base(rng.choice(kinds), names, pidx=shape != "computed-mapped"),
+                "map": rename_map(names),
+                "via_from_path": rng.random() < 0.7}
+        if shape == "mapped-mapped":
+            tree = {"t": "mapped", "sub": tree, "map": rename_map(table_of(tree)[0])}
+    elif shape in ("joined", "computed-joined", "mapped-joined", "joined-mapped", "joined-nested", "joined-computed"):
+        all_frames = rng.random() < 0.2
+        if all_frames and rng.random() < 0.5:
+            custom_index = rng.sample(range(0, 50 if n <= 12 else 4 * n), n)
+        subs = []
+        for part in split(names):
+            kind = "frame" if all_frames else rng.choice(kinds)
+            b = base(kind, part, custom_index if kind == "frame" else None)
+            if shape == "joined-mapped" and rng.random() < 0.6:
+                b = {"t": "mapped", "sub": b, "map": rename_map(part), "via_from_path": rng.random() < 0.7}
+            subs.append(b)
+        if shape == "joined-computed":
+            # a computed-column reader as a sub-reader of the join (refuses columns=None)
+            j = rng.randrange(len(subs))
+            if custom_index is None or subs[j]["t"] == "frame":
+                subs[j] = computed_over(subs[j], rng.choice(["k", "is_decoy", "new col"]))
+        if shape == "joined-nested" and len(subs) >= 2:
+            # a join inside a join
+            subs = [{"t": "joined", "subs": subs[:-1]}, subs[-1]] if rng.random() < 0.5 else \
+                [subs[0], {"t": "joined", "subs": subs[1:]}]
+        tree = {"t": "joined", "subs": subs}
+        if shape == "mapped-joined":
+            tree = {"t": "mapped", "sub": tree, "map": rename_map(table_of(tree)[0])}
+    else:
+        tree = base(rng.choice(kinds), names)
+    if shape in ("computed", "computed-joined", "computed-computed", "mapped-computed", "computed-mapped"):
+        tree = computed_over(tree, rng.choice(["k", "is_decoy", "new col"]))
+        if shape == "computed-computed":
+            tree = computed_over(tree, "k2")
+        if shape == "mapped-computed":
+            tree = {"t": "mapped", "sub": tree, "map": rename_map(table_of(tree)[0])}
     return tree
 
 
@@ -417,7 +522,9 @@ def gen_cols(rng, tree):
     names = table_of(tree)[0]
     r = rng.random()
     if r < 0.25 and tree["t"] != "computed":
-        return None
+        if accepts_none(tree) or rng.random() < 0.15:
+            return None
+        r = 0.25 + 0.75 * rng.random()
     if r < 0.32:
         cols = []
     elif r < 0.5:
@@ -437,17 +544,38 @@ def gen_cols(rng, tree):
     return cols
 
 
-def gen_reader_case(rng, nmax=12):
-    tree = gen_tree(rng, nmax)
+def _set_rg(node, rng, n):
+    """larger tables: row groups that are not tiny"""
+    t = node["t"]
+    if t == "pq":
+        node["rg"] = rng.choice([7, 64, 100, max(1, n // 3), n + 1])
+    elif t == "joined":
+        for s_ in node["subs"]:
+            _set_rg(s_, rng, n)
+    elif t not in BASES:
+        _set_rg(node["sub"], rng, n)
+
+
+def gen_reader_case(rng, nmax=12, force_n=None):
+    tree = gen_tree(rng, nmax, force_n=force_n)
     n = n_rows(tree)
     c = rng.choice([1, 1, 2, 2, 3, 4, 5, 7, max(1, n - 1), max(1, n), n + 1, n + 5])
-    return {"kind": "reader", "tree": tree, "c": c, "cols": gen_cols(rng, tree)}
+    if force_n is not None:
+        # second pass: tables well beyond a dozen rows (chunk / row-group / batch boundaries that never coincide)
+        _set_rg(tree, rng, n)
+        c = rng.choice([7, 50, 64, 100, max(1, n // 2), max(1, n - 1)])
+    case = {"kind": "reader", "tree": tree, "c": c, "cols": gen_cols(rng, tree)}
+    if rng.random() < 0.2:
+        # second pass: the reader object is used again — a second read() and two more chunk iterators (another chunk
+        # size), consumed alternately
+        case["again"] = rng.choice([1, 2, 3, max(1, n), n + 1])
+    return case
 
 
 def expected_select(tree, cols):
     names, idx, rows = table_of(tree)
     if cols is None:
-        if tree["t"] == "computed":
+        if not accepts_none(tree):
             return None
         return (names, [(i, list(zip(names, r))) for i, r in zip(idx, rows)])
     pos = [names.index(c) for c in cols]
@@ -474,7 +602,24 @@ def run_impl_reader(case, work):
             chunks = [canon_df(ch) for ch in reader.get_chunked_data_iterator(case["c"], case["cols"])]
         except Exception as e:
             return ("raise", "chunked", f"{type(e).__name__}: {e}"[:300])
-    return ("ok", whole, chunks, colnames)
+        again = None
+        if case.get("again"):
+            try:
+                its = [reader.get_chunked_data_iterator(case["again"], case["cols"]),
+                       reader.get_chunked_data_iterator(case["c"], case["cols"])]
+                outs, live = [[], []], [True, True]
+                while any(live):
+                    for k in (0, 1):
+                        if live[k]:
+                            try:
+                                outs[k].append(canon_df(next(its[k])))
+                            except StopIteration:
+                                live[k] = False
+                again = (canon_df(reader.read(case["cols"])), outs[0], outs[1],
+                         [str(x) for x in reader.get_column_names()])
+            except Exception as e:
+                return ("raise", "second-use", f"{type(e).__name__}: {e}"[:300])
+    return ("ok", whole, chunks, colnames, again)
 
 
 def reader_spec_verdict(case, impl):
@@ -485,7 +630,9 @@ def reader_spec_verdict(case, impl):
         return None
     if impl[0] == "raise":
         return (f"reader-exception:{impl[1]}:{shape}", "the reader raised on a well-formed request: " + impl[2], exp)
-    _, whole, chunks, colnames = impl
+    _, whole, chunks, colnames = impl[:4]
+    if has_stored_index(case["tree"]):
+        return stored_index_verdict(case, impl, exp)
     if colnames != table_of(case["tree"])[0]:
         return (f"column-names:{shape}", "get_column_names() is not the list of the table's columns, in order", exp)
     if whole != exp:
@@ -501,6 +648,58 @@ def reader_spec_verdict(case, impl):
     for ch in chunks:
         if ch[0] != whole[0]:
             return (f"chunk-columns:{shape}", "a chunk does not carry the requested columns in the requested order", exp)
+    if len(impl) > 4 and impl[4] is not None:
+        whole2, chunks_a, chunks_b, colnames2 = impl[4]
+        for what, chs in (("other-chunk-size", chunks_a), ("same-chunk-size", chunks_b)):
+            if [r for ch in chs for r in ch[1]] != whole[1] or any(ch[0] != whole[0] for ch in chs):
+                return (f"reader-reuse:chunks:{shape}",
+                        f"a second / interleaved chunk iterator of the same reader object ({what}) does not deliver "
+                        "the rows of read()", exp)
+        if whole2 != whole or colnames2 != colnames:
+            return (f"reader-reuse:read:{shape}", "a second read() of the same reader object differs from the first",
+                    exp)
+    return None
+
+
+IDX_COL = "__index_level_0__"
+
+
+def stored_index_verdict(case, impl, exp):
+    """Parquet file with a stored pandas index.  Two consistent views of such a file are accepted: (A) the stored
+    labels are the row index (or are ignored: labels 0..n-1) and the columns are the data columns; (B) the file is read
+    without its pandas metadata: labels 0..n-1 and the physical column `__index_level_0__` is one more column holding
+    the stored labels.  Within a view everything is as for any table: get_column_names() = the columns of read(None),
+    requested columns in the requested order, chunks concatenate to read().  One signature for all failures."""
+    _, whole, chunks, colnames = impl[:4]
+    sig = "parquet-stored-index"
+    pre = "Parquet file written by pandas with its index: "
+    names = table_of(case["tree"])[0]
+    n = len(exp[1])
+    stored = [r[0] for r in exp[1]]
+    extra = [IDX_COL] if colnames == names + [IDX_COL] else []
+    if colnames != names + extra:
+        return (sig, pre + f"get_column_names() is {colnames}, the table's columns are {names}", exp)
+    labels = [r[0] for r in whole[1]]
+    if case["cols"] is None:
+        if whole[0] != colnames:
+            return (sig, pre + f"get_column_names() announces {colnames}, read() returns the columns {whole[0]}", exp)
+        if extra and [r[1][-1][1] for r in whole[1]] != ["i" + str(x) for x in stored]:
+            return (sig, pre + f"the column {IDX_COL} does not hold the stored labels", exp)
+        cells = [r[1][:len(names)] for r in whole[1]]
+    else:
+        if whole[0] != exp[0]:
+            return (sig, pre + "read(columns) does not carry the requested columns in the requested order", exp)
+        cells = [r[1] for r in whole[1]]
+    if cells != [r[1] for r in exp[1]]:
+        return (sig, pre + "read(columns) is not the table restricted to the requested columns", exp)
+    if labels != list(range(n)) and (extra or labels != stored):
+        return (sig, pre + f"the row labels of read() ({labels}) are neither the stored ones nor 0..n-1", exp)
+    cat_rows = [r for ch in chunks for r in ch[1]]
+    if cat_rows != whole[1]:
+        return (sig, pre + "concatenating the chunks does not give what read() gives — chunk labels "
+                     f"{[[r[0] for r in ch[1]] for ch in chunks]}, read() labels {labels}", exp)
+    if any(ch[0] != whole[0] for ch in chunks):
+        return (sig, pre + "a chunk does not carry the columns of read()", exp)
     return None
 
 
@@ -543,6 +742,10 @@ def eval_reader_cases(chk, cases, work, tally=True):
                 chk.count("text_reader_sep", repr(sp))
             for b in _bases_of(cs["tree"]):
                 chk.count("base_reader", b)
+            chk.count("reader_depth", _depth(cs["tree"]))
+            chk.count("reader_object_used_again", bool(cs.get("again")))
+            chk.count("parquet_index_in_file", _pidx_of(cs["tree"]))
+            chk.count("rename_map_reuses_old_names", _swap_of(cs["tree"]))
         exp = expected_select(cs["tree"], cs["cols"])
         if exp is None:
             # columns=None on a computed-column reader: typeguard / TypeError in both paths, no promise
@@ -562,6 +765,12 @@ def eval_reader_cases(chk, cases, work, tally=True):
             sig, clause, _ = verdict
             chk.spec_violation(sig, dict(case=jsonable_case(cs), clause=clause,
                                          impl=_short(impl), expected=_short(("ok", exp, None))))
+            continue
+        if has_stored_index(cs["tree"]) and ([r[0] for r in impl[1][1]] != list(range(n))
+                                             or impl[3] != table_of(cs["tree"])[0]):
+            # the model's Parquet file has no stored labels (rows are labelled 0..n-1, data columns only): nothing to
+            # compare with when the implementation takes another consistent view
+            chk.count("parquet_stored_index", "consistent-other-view")
             continue
         # model vs implementation, chunk by chunk
         m_read = None if r_read == "reject" else parse_model_df(r_read)
@@ -586,6 +795,35 @@ def _seps_of(node):
     if t in ("mapped", "computed"):
         return _seps_of(node["sub"])
     return []
+
+
+def _depth(node):
+    t = node["t"]
+    if t in BASES:
+        return 0
+    if t == "joined":
+        return 1 + max(_depth(s_) for s_ in node["subs"])
+    return 1 + _depth(node["sub"])
+
+
+def _pidx_of(node):
+    t = node["t"]
+    if t in BASES:
+        return node.get("pidx") or "none"
+    if t == "joined":
+        return "none"
+    return _pidx_of(node["sub"])
+
+
+def _swap_of(node):
+    t = node["t"]
+    if t in BASES:
+        return False
+    if t == "joined":
+        return any(_swap_of(s_) for s_ in node["subs"])
+    if t == "mapped" and set(node["map"].values()) & set(node["map"].keys()):
+        return True
+    return _swap_of(node["sub"])
 
 
 def _bases_of(node):
@@ -614,15 +852,21 @@ def _short(impl):
 KINDS = ["dataframe", "dicts", "records"]
 
 
-def gen_writer_case(rng, nmax=12):
+def gen_writer_case(rng, nmax=12, big=None):
     suffix = rng.choice([".csv", ".parquet", ".peptides", ".weird"])
     ncols = rng.choice([1, 2, 3, 4])
     names = rng.sample(NAME_POOL, ncols)
     types = [rng.choice(["int", "float", "str", "bool"]) for _ in names]
     n = min(nmax, rng.choice([0, 1, 2, 3, 4, 5, 6, 8, 10, 12]))
+    if big is not None:
+        n = big[0]
     rows = [[gen_value(rng, t, True) for t in types] for _ in range(n)]
     bufsize = rng.choice([0, 0, 1, 2, 2, 3, 4, 5, max(2, n - 1), max(2, n), n + 1, 1000])
     kind = rng.choice(KINDS) if bufsize > 1 else "dataframe"
+    if big is not None:
+        # second pass: the pipeline's configuration (brew_rollup.py:374-386: 1000-row buffer of dicts, one row per
+        # append) and other buffers that fill up many times
+        bufsize, kind = big[1], big[2]
     appends, pos = [], 0
     if kind == "records":
         appends = [{"a": "record", "rows": [r]} for r in rows]
@@ -647,6 +891,24 @@ def gen_writer_case(rng, nmax=12):
             "sep": rng.choice(SEPS), "index": rng.choice(INDEX_MODES), "ctx": rng.choice(["explicit", "with"])}
     if kind == "records" and rng.random() < 0.4:
         case["rec_narrow"] = True
+    # second pass: options left to their defaults (`from_suffix(path, columns)` without buffer_size / buffer_type when
+    # the case is the default), `column_types=` also for text writers (the pipeline passes them)
+    case["omit_defaults"] = rng.random() < 0.5
+    case["text_types"] = rng.random() < 0.4
+    if bufsize > 1 and kind in ("dataframe", "dicts") and ncols >= 2 and rng.random() < 0.2:
+        # second pass: appends whose columns / dict keys come in another order than the writer's.  Buffered rows are
+        # matched BY NAME (pd.concat, pd.DataFrame(list_of_dicts)); only the head of a flushed block decides the
+        # column order of the frame handed on, which the text writer refuses when it differs (no promise), the
+        # Parquet writer takes by name.
+        cand = [i for i, a in enumerate(appends) if a["rows"]]
+        if cand:
+            bperm = {}
+            for i in rng.sample(cand, rng.randint(1, min(3, len(cand)))):
+                perm = list(range(ncols))
+                while perm == list(range(ncols)):
+                    rng.shuffle(perm)
+                bperm[str(i)] = perm
+            case["bperm"] = bperm
     if rng.random() < 0.15 and ncols >= 2 and bufsize <= 1 and any(a["rows"] for a in appends):
         # one append with its columns in another order: the text writer refuses it, the Parquet writer goes by name
         perm = list(range(ncols))
@@ -706,6 +968,8 @@ def writer_args(case):
         order = list(range(len(names)))
         if case.get("perm") and case["perm"][0] == i:
             order = case["perm"][1]
+        if case.get("bperm") and str(i) in case["bperm"]:
+            order = case["bperm"][str(i)]
         nm = [names[j] for j in order]
         ty = [types[j] for j in order]
         rows = [[r[j] for j in order] for r in a["rows"]]
@@ -767,12 +1031,17 @@ def run_impl_writer(case, work):
     kwargs = dict(sep_kwargs(case, is_pq))
     if is_pq:
         kwargs["column_types"] = [PA_TYPES[t] for t in case["types"]]
+    elif case.get("text_types"):
+        kwargs["column_types"] = [NP_TYPES[t] for t in case["types"]]
+    if not (case.get("omit_defaults") and case["bufsize"] == 0):
+        kwargs["buffer_size"] = case["bufsize"]
+    if not (case.get("omit_defaults") and case["bkind"] == "dataframe"):
+        kwargs["buffer_type"] = tt
     with warnings.catch_warnings():
         warnings.simplefilter("ignore")
         stage = "initialize"
         try:
-            w = TabularDataWriter.from_suffix(p, list(case["names"]), buffer_size=case["bufsize"], buffer_type=tt,
-                                              **kwargs)
+            w = TabularDataWriter.from_suffix(p, list(case["names"]), **kwargs)
             if case.get("ctx") == "with":
                 with w:
                     stage = "append_data"
@@ -887,7 +1156,26 @@ def eval_writer_cases(chk, cases, work, tally=True):
                 chk.count("text_writer_sep", repr(cs.get("sep", "\t")))
             chk.count("appended_frame_index", cs.get("index", "default") if cs["bkind"] == "dataframe" else "n/a")
             chk.count("writer_lifetime", cs.get("ctx", "explicit"))
+            chk.count("from_suffix_options", "defaults-omitted" if cs.get("omit_defaults") and
+                      (cs["bufsize"] == 0 or cs["bkind"] == "dataframe") else "explicit")
+            chk.count("text_writer_column_types", bool(cs.get("text_types")) if not is_pq else "n/a")
+            chk.count("buffered_append_column_order", "permuted" if cs.get("bperm") else "writer-order")
         model_reject = r_model in ("reject", "reject-read")
+        if cs.get("bperm"):
+            # rows matched by name inside the buffer; the model's buffer is positional (rows in writer order are its
+            # domain, ArgWF), so these cases are judged by the specification alone
+            if impl[0] == "raise" and not is_pq and impl[2].startswith("ValueError: Column names"):
+                chk.reject("text-writer-buffered-block-head-column-order")
+                continue
+            verdict = writer_spec_verdict(cs, impl)
+            if verdict is not None:
+                sig, clause, exp = verdict
+                chk.spec_violation(sig.replace("writer-", "writer-by-name-", 1),
+                                   dict(case=jsonable_case(cs), clause="appends with columns / keys in another order "
+                                        "(matched by name): " + clause,
+                                        impl=_short(impl[:3]) if impl[0] == "ok" else _short(impl),
+                                        expected=_short(("ok", exp, None))))
+            continue
         if not writer_wellformed(cs):
             # text writer + permuted columns: check_valid_data raises ValueError; no promise
             if impl[0] == "raise":
@@ -1079,7 +1367,8 @@ def gen_auto_case(rng, nmax=8):
         steps.append({"a": form, "rows": rows, "to": to, "mutate": mut})
     return {"kind": "auto", "names": names, "types": types, "bkind": bkind, "writers": writers, "steps": steps,
             "mode": rng.choice(["auto_finalize", "auto_finalize", "exit-stack", "explicit"]),
-            "index": rng.choice(INDEX_MODES), "read_c": rng.choice([1, 2, 3])}
+            "index": rng.choice(INDEX_MODES), "read_c": rng.choice([1, 2, 3]),
+            "holder": rng.choice(["list", "list", "tuple", "dict-values"])}
 
 
 def auto_object(case, step):
@@ -1173,7 +1462,10 @@ def run_impl_auto(case, work, mutate=True):
 
             stage = "block"
             if case["mode"] == "auto_finalize":
-                with auto_finalize(ws):
+                # (the pipeline hands `dict.values()` to auto_finalize, brew_rollup.py:399)
+                holder = {"list": ws, "tuple": tuple(ws), "dict-values": {i: w for i, w in enumerate(ws)}.values()}[
+                    case.get("holder", "list")]
+                with auto_finalize(holder):
                     body()
             elif case["mode"] == "exit-stack":
                 with contextlib.ExitStack() as stack:
@@ -1257,6 +1549,8 @@ def eval_auto_cases(chk, cases, work, tally=True):
                                  appends=[(st["to"], len(st["rows"])) for st in cs["steps"]]))
             chk.count("auto_writers", nw)
             chk.count("auto_lifetime", cs["mode"])
+            if cs["mode"] == "auto_finalize":
+                chk.count("auto_finalize_argument", cs.get("holder", "list"))
             chk.count("auto_buffer_kind", cs["bkind"])
             chk.count("auto_steps", len(cs["steps"]))
             chk.count("auto_object_shared_between_writers", any(len(st["to"]) > 1 for st in cs["steps"]))
@@ -1337,24 +1631,383 @@ def exhaustive_write1(nmax):
 
 
 # ----------------------------------------------------------------------------------------------------------
+# second pass: several writer objects for one file, writer objects used again (programs of calls)
+# ----------------------------------------------------------------------------------------------------------
+def _calls_form(obj):
+    if obj["bufsize"] <= 1:
+        return "frame"
+    return {"dataframe": "frame", "dicts": "dict", "records": "record"}[obj["bkind"]]
+
+
+def _gen_appends(rng, obj, types, total):
+    """appends for one segment on `obj`: [{'a': form, 'rows': [...]}]"""
+    form = _calls_form(obj)
+    out = []
+    left = total
+    while left > 0 or (rng.random() < 0.15 and len(out) < 5):
+        if form == "record":
+            k = 1
+        elif form == "dict":
+            k = rng.choice([1, 1, 1, 2, 3])
+        else:
+            k = rng.choice([0, 1, 1, 2, 3, left])
+        k = max(0, min(k, left)) if left > 0 else 0
+        if form == "record" and k == 0:
+            break
+        rows = [[gen_value(rng, t, True) for t in types] for _ in range(k)]
+        left -= k
+        a = form
+        if form == "dict" and (k != 1 or rng.random() < 0.4):
+            a = "dicts"
+        out.append({"a": a, "rows": rows})
+    return out
+
+
+def gen_calls_case(rng, nmax=8):
+    is_pq = rng.random() < 0.3
+    suffix = ".parquet" if is_pq else rng.choice([".csv", ".tab", ".psms", ".weird"])
+    ncols = rng.choice([1, 2, 3])
+    names = rng.sample(NAME_POOL, ncols)
+    types = [rng.choice(["int", "float", "str", "bool"]) for _ in names]
+    nobj = 1 if is_pq else rng.choice([1, 2, 2, 3])
+    objs = []
+    for _ in range(nobj):
+        bufsize = rng.choice([0, 0, 1, 2, 3, 4, 1000])
+        objs.append({"bufsize": bufsize, "bkind": rng.choice(KINDS) if bufsize > 1 else "dataframe"})
+    case = {"kind": "calls", "suffix": suffix, "names": names, "types": types, "objs": objs,
+            "sep": rng.choice(SEPS), "stale": rng.choice(["none", "garbage", "same-header"]),
+            "index": rng.choice(INDEX_MODES), "read_c": rng.choice([1, 2, 3])}
+    if not is_pq and rng.random() < 0.15:
+        # a free program (text): any calls after a first initialize(); judged against the model only
+        prog = [[rng.randrange(nobj), "init"]]
+        for _ in range(rng.randint(3, 9)):
+            j = rng.randrange(nobj)
+            what = rng.choice(["app", "app", "app", "app", "fin", "fin", "init", "write"])
+            if what == "app":
+                for a in _gen_appends(rng, objs[j], types, rng.choice([1, 1, 2, 3]))[:2]:
+                    prog.append([j, "app", a])
+            elif what == "write":
+                k = rng.choice([0, 1, 2])
+                prog.append([j, "write", [[gen_value(rng, t, True) for t in types] for _ in range(k)]])
+            else:
+                prog.append([j, what])
+        case["free"] = prog
+        return case
+    eps = []
+    for _ in range(rng.choice([1, 2, 2, 3])):
+        if rng.random() < 0.25:
+            k = min(nmax, rng.choice([0, 1, 2, 4]))
+            eps.append({"e": "write", "j": rng.randrange(nobj),
+                        "rows": [[gen_value(rng, t, True) for t in types] for _ in range(k)]})
+        else:
+            j0 = rng.randrange(nobj)
+            nseg = 1 if is_pq else rng.choice([0, 1, 1, 2, 3])
+            segs = []
+            for _ in range(nseg):
+                j = 0 if is_pq else rng.randrange(nobj)
+                segs.append({"j": j, "appends": _gen_appends(rng, objs[j], types, min(nmax, rng.choice([0, 1, 2, 3, 5])))})
+            eps.append({"e": "run", "j0": 0 if is_pq else j0, "segs": segs})
+    case["eps"] = eps
+    return case
+
+
+def calls_program(case):
+    """flat list of calls [j, what, payload?] with the index of the last call of every episode"""
+    if case.get("free"):
+        return [list(c) for c in case["free"]], []
+    prog, ends = [], []
+    for ep in case["eps"]:
+        if ep["e"] == "write":
+            prog.append([ep["j"], "write", ep["rows"]])
+        else:
+            prog.append([ep["j0"], "init"])
+            for seg in ep["segs"]:
+                for a in seg["appends"]:
+                    prog.append([seg["j"], "app", a])
+                prog.append([seg["j"], "fin"])
+        ends.append(len(prog))
+    return prog, ends
+
+
+def calls_episode_rows(ep):
+    if ep["e"] == "write":
+        return ep["rows"]
+    return [r for seg in ep["segs"] for a in seg["appends"] for r in a["rows"]]
+
+
+def calls_wire(case, prog):
+    names = case["names"]
+    out = []
+    for c in prog:
+        j, what = c[0], c[1]
+        if what in ("init", "fin"):
+            out.append([j, Atom(what)])
+        elif what == "write":
+            wrows = [[[n_, Atom(cell_atom(v))] for n_, v in zip(names, r)] for r in c[2]]
+            out.append([j, [Atom("write"), [names, wrows]]])
+        else:
+            a = c[2]
+            wrows = [[[n_, Atom(cell_atom(v))] for n_, v in zip(names, r)] for r in a["rows"]]
+            if a["a"] == "frame":
+                arg = [Atom("frame"), names, wrows]
+            elif a["a"] == "dict":
+                arg = [Atom("dict"), wrows[0]]
+            elif a["a"] == "dicts":
+                arg = [Atom("dicts"), wrows]
+            else:
+                arg = [Atom("record"), wrows[0]]
+            out.append([j, [Atom("app"), arg]])
+    return out
+
+
+def run_impl_calls(case, work):
+    """-> list, per check point (end of every episode; end of a free program), of
+    ('ok', read canon, chunk canons, groups, from_path canon) | ('raise', where, repr)"""
+    from mokapot.tabular_data import TableType, TabularDataWriter
+
+    TT = {"dataframe": TableType.DataFrame, "dicts": TableType.Dicts, "records": TableType.Records}
+    names, types = case["names"], case["types"]
+    is_pq = case["suffix"] == ".parquet"
+    p = work.path(case["suffix"])
+    make_stale(p, case["stale"], names, types, is_pq)
+    prog, ends = calls_program(case)
+    points = ends if ends else [len(prog)]
+    out = []
+    with warnings.catch_warnings():
+        warnings.simplefilter("ignore")
+        ws = []
+        for o in case["objs"]:
+            kwargs = dict(sep_kwargs(case, is_pq))
+            if is_pq:
+                kwargs["column_types"] = [PA_TYPES[t] for t in types]
+            if o["bufsize"] != 0 or o.get("explicit"):
+                kwargs["buffer_size"] = o["bufsize"]
+            if o["bkind"] != "dataframe":
+                kwargs["buffer_type"] = TT[o["bkind"]]
+            ws.append(TabularDataWriter.from_suffix(p, list(names), **kwargs))
+        dead = None
+        for i, c in enumerate(prog):
+            if dead is None:
+                try:
+                    w = ws[c[0]]
+                    if c[1] == "init":
+                        w.initialize()
+                    elif c[1] == "fin":
+                        w.finalize()
+                    elif c[1] == "write":
+                        w.write(make_df(names, types, c[2], index=frame_index(case.get("index", "default"), len(c[2]))))
+                    else:
+                        a = c[2]
+                        if a["a"] == "frame":
+                            obj = make_df(names, types, a["rows"], index=frame_index(case.get("index", "default"),
+                                                                                     len(a["rows"])))
+                        elif a["a"] == "dict":
+                            obj = dict(zip(names, a["rows"][0]))
+                        elif a["a"] == "dicts":
+                            obj = [dict(zip(names, r)) for r in a["rows"]]
+                        else:
+                            obj = make_df(names, types, a["rows"], str_object=True).to_records(index=False)[0]
+                        w.append_data(obj)
+                except Exception as e:
+                    dead = ("raise", f"call {i}: objs[{c[0]}].{c[1]}", f"{type(e).__name__}: {e}"[:300])
+            if i + 1 in points:
+                if dead is not None:
+                    out.append(dead)
+                    continue
+                try:
+                    out.append(("ok",) + read_back(ws[0], p, case["read_c"], is_pq, sep_kwargs(case, is_pq)))
+                except Exception as e:
+                    out.append(("raise", "read-back", f"{type(e).__name__}: {e}"[:300]))
+        if not prog:
+            out.append(("raise", "empty-program", ""))
+    return out
+
+
+def calls_spec_verdict(case, k, impl):
+    """episode number k: the file reads back exactly the rows of that episode"""
+    ep = case["eps"][k]
+    rows = calls_episode_rows(ep)
+    fake = {"suffix": case["suffix"], "bkind": "mixed", "bufsize": 2, "names": case["names"],
+            "appends": [{"a": "x", "rows": rows}]}
+    v = writer_spec_verdict(fake, impl)
+    if v is None:
+        return None
+    tag = "parquet" if case["suffix"] == ".parquet" else "text"
+    what = v[0].split(":")[1] if v[0].startswith("writer-roundtrip:") else v[0].split(":")[0]
+    shape = "several-objects" if len(case["objs"]) > 1 else ("object-used-again" if k > 0 else "one-use")
+    return (f"writer-objects:{what}:{shape}:{tag}",
+            f"episode {k + 1} of {len(case['eps'])} on {len(case['objs'])} writer object(s) of one file "
+            f"({ep['e']}): " + v[1], v[2])
+
+
+def eval_calls_cases(chk, cases, work, tally=True):
+    lines, slots = [], []
+    for ci, cs in enumerate(cases):
+        prog, ends = calls_program(cs)
+        is_pq = cs["suffix"] == ".parquet"
+        objs = [[Atom(o["bkind"]), o["bufsize"]] for o in cs["objs"]]
+        for pt in (ends if ends else [len(prog)]):
+            lines.append(req("tab-calls", Atom("pq" if is_pq else "csv"), cs["names"], objs,
+                             Atom("none") if is_pq else stale_wire(cs["stale"], cs["names"]),
+                             calls_wire(cs, prog[:pt])))
+            slots.append(ci)
+    resp = common.driver_batch(lines)
+    pos = 0
+    for ci, cs in enumerate(cases):
+        prog, ends = calls_program(cs)
+        npts = len(ends) if ends else 1
+        rs = resp[pos:pos + npts]
+        pos += npts
+        if any("bad-" in r for r in rs):
+            raise RuntimeError(f"driver rejected the request of case {cs}: {rs}")
+        impls = run_impl_calls(cs, work)
+        is_pq = cs["suffix"] == ".parquet"
+        free = bool(cs.get("free"))
+        if tally:
+            nonempty = [k for k, ep in enumerate(cs.get("eps", [])) if calls_episode_rows(ep)]
+            key = (cs["suffix"], tuple((o["bkind"], o["bufsize"]) for o in cs["objs"]),
+                   tuple((c[0], c[1], len(c[2]["rows"]) if c[1] == "app" else (len(c[2]) if c[1] == "write" else 0))
+                         for c in prog))
+            chk.case(None, key if (free or len(nonempty) >= 2 or len(cs["objs"]) >= 2) else None,
+                     sample=dict(writer=cs["suffix"], objects=[(o["bkind"], o["bufsize"]) for o in cs["objs"]],
+                                 calls=[f"{c[0]}.{c[1]}" for c in prog]))
+            chk.count("calls_file", "parquet" if is_pq else "text")
+            chk.count("calls_objects", len(cs["objs"]))
+            chk.count("calls_program", "free" if free else f"{len(cs['eps'])}-episodes")
+            if not free:
+                for ep in cs["eps"]:
+                    chk.count("calls_episode", ep["e"] if ep["e"] == "write" else f"run:{min(len(ep['segs']), 3)}-segments")
+                    if ep["e"] == "run":
+                        chk.count("calls_initialised_by_other_object", any(sg["j"] != ep["j0"] for sg in ep["segs"]))
+            for o in cs["objs"]:
+                chk.count("calls_object_kind", o["bkind"] if o["bufsize"] > 1 else "unbuffered")
+        for k, (r, impl) in enumerate(zip(rs, impls)):
+            r_model = dec(r)
+            model_reject = r_model in ("reject", "reject-read")
+            if free:
+                # no promise; the model says what the file holds after any program of calls
+                if impl[0] == "raise":
+                    chk.reject("free-call-program:" + impl[2].split(":")[0])
+                    if not model_reject:
+                        chk.corr_break("tab-calls", dict(case=jsonable_case(cs), impl=impl[1] + " raises " + impl[2],
+                                                         model="answers"))
+                elif model_reject:
+                    chk.corr_break("tab-calls", dict(case=jsonable_case(cs), impl="succeeds", model=str(r_model)))
+                elif parse_model_df(r_model) != impl[1]:
+                    chk.corr_break("tab-calls", dict(case=jsonable_case(cs), impl=_short(impl[:3]),
+                                                     model=str(parse_model_df(r_model))[:600]))
+                continue
+            verdict = calls_spec_verdict(cs, k, impl)
+            if verdict is not None:
+                sig, clause, exp = verdict
+                chk.spec_violation(sig, dict(case=jsonable_case(cs), episode=k, clause=clause,
+                                             impl=_short(impl[:3]) if impl[0] == "ok" else _short(impl),
+                                             expected=_short(("ok", exp, None))))
+                break
+            if model_reject:
+                chk.corr_break("tab-calls", dict(case=jsonable_case(cs), episode=k, impl="succeeds", model=str(r_model)))
+                break
+            m_df = parse_model_df(r_model[0] if is_pq else r_model)
+            if m_df != impl[1]:
+                chk.corr_break("tab-calls", dict(case=jsonable_case(cs), episode=k, impl=_short(impl[:3]),
+                                                 model=str(m_df)[:600]))
+                break
+
+
+def exhaustive_calls(nmax):
+    """two text objects (one unbuffered, one buffered) / one Parquet object; every program of <= nmax episodes over a
+    small alphabet of episodes"""
+    cases = []
+    r = [[10 + i, f"s{i}"] for i in range(6)]
+    for objs, suffix in (([{"bufsize": 0, "bkind": "dataframe"}, {"bufsize": 2, "bkind": "dicts"}], ".csv"),
+                         ([{"bufsize": 3, "bkind": "dataframe"}, {"bufsize": 0, "bkind": "dataframe"}], ".tab"),
+                         ([{"bufsize": 2, "bkind": "records"}], ".parquet"),
+                         ([{"bufsize": 0, "bkind": "dataframe"}], ".parquet")):
+        def app(j, rows):
+            f = _calls_form(objs[j])
+            if f == "frame":
+                return [{"a": "frame", "rows": rows}]
+            return [{"a": f, "rows": [x]} for x in rows]
+
+        last = len(objs) - 1
+        alphabet = [
+            {"e": "write", "j": last, "rows": r[4:6]},
+            {"e": "run", "j0": 0, "segs": [{"j": last, "appends": app(last, r[0:3])}]},
+            {"e": "run", "j0": last, "segs": [{"j": 0, "appends": app(0, r[3:4])}]},
+        ]
+        if suffix != ".parquet":
+            alphabet.append({"e": "run", "j0": 0, "segs": []})
+            alphabet.append({"e": "run", "j0": last, "segs": [{"j": 0, "appends": app(0, r[0:1])},
+                                                              {"j": last, "appends": app(last, r[1:4])},
+                                                              {"j": 0, "appends": app(0, r[4:5])}]})
+        for n in range(1, nmax + 1):
+            for eps in itertools.product(alphabet, repeat=n):
+                cases.append({"kind": "calls", "suffix": suffix, "names": ["a", "b"], "types": ["int", "str"],
+                              "objs": objs, "sep": "," if n % 2 else "\t", "stale": "same-header" if n % 2 else "none",
+                              "index": "default", "read_c": 2, "eps": list(eps)})
+    return cases
+
+
+# ----------------------------------------------------------------------------------------------------------
 # out-of-domain requests: tallied, never a verdict
 # ----------------------------------------------------------------------------------------------------------
 def rejected_requests(chk, rng, work, n):
+    """requests outside the property's quantifier (chunk size 0, a column that does not exist): the property promises
+    nothing, but the model says which of them the code refuses (`none`) — second pass: that is compared (a reader
+    that starts to answer such a request, or to refuse one it answered, no longer is the modelled code)"""
+    reqs = []
     for _ in range(n):
-        kind = rng.choice(["csv", "pq", "frame"])
-        node = gen_base(rng, kind, ["a", "b"], rng.choice([0, 2, 3]))
-        rd = build_reader(node, work)
-        what = rng.choice(["chunk_size=0", "unknown-column"])
+        if rng.random() < 0.5:
+            tree = gen_base(rng, rng.choice(["csv", "pq", "frame"]), rng.sample(NAME_POOL, rng.choice([1, 2, 3])),
+                            rng.choice([0, 1, 3]))
+        else:
+            tree = gen_tree(rng, 4, allow_pidx=False)
+        names = table_of(tree)[0]
+        what = rng.choice(["chunk_size=0", "unknown-column:read", "unknown-column:read", "unknown-column:chunked",
+                           "unknown-column-only:chunked"])
+        c = rng.choice([1, 2, 5])
+        if what == "chunk_size=0":
+            cols = None if accepts_none(tree) and rng.random() < 0.5 else rng.sample(names, rng.randint(1, len(names)))
+            if tree["t"] == "computed" and tree["fn"][0] == "addcol" and tree["fn"][1] not in cols:
+                cols.append(tree["fn"][1])
+            c = 0
+        elif what == "unknown-column-only:chunked":
+            cols = ["zz"]
+        else:
+            cols = rng.sample(names, rng.randint(0, len(names)))
+            cols.insert(rng.randrange(len(cols) + 1), "zz")
+        reqs.append((tree, what, c, cols))
+    lines = []
+    for tree, what, c, cols in reqs:
+        w = wire_tree(tree)
+        wc = Atom("none") if cols is None else list(cols)
+        lines.append(req("tab-read", w, wc) if what.endswith(":read") else req("tab-chunked", w, c, wc))
+    resp = common.driver_batch(lines)
+    for (tree, what, c, cols), r in zip(reqs, resp):
+        if "bad-" in r:
+            raise RuntimeError(f"driver rejected the request {what} on {tree}: {r}")
+        model_rejects = dec(r) == "reject"
         with warnings.catch_warnings():
             warnings.simplefilter("ignore")
+            rd = build_reader(tree, work)
             try:
-                if what == "chunk_size=0":
-                    list(rd.get_chunked_data_iterator(0, None))
+                if what.endswith(":read"):
+                    rd.read(cols)
                 else:
-                    rd.read(["a", "zz"])
-                chk.count("out_of_domain_accepted", f"{kind}:{what}")
+                    list(rd.get_chunked_data_iterator(c, cols))
+                raised = None
             except Exception as e:
-                chk.reject(f"{what}:{type(e).__name__}")
+                raised = type(e).__name__
+        kind = f"{what}:{shape_of(tree).split('(')[0]}:rows{'=0' if n_rows(tree) == 0 else '>0'}"
+        if raised is not None:
+            chk.reject(f"{what}:{raised}")
+        else:
+            chk.count("out_of_domain_accepted", kind)
+        if (raised is not None) != model_rejects:
+            chk.corr_break("tab-reject", dict(case=dict(kind="reject", tree=jsonable_case(tree), what=what, c=c,
+                                                        cols=cols),
+                                              impl=f"raises {raised}" if raised else "answers",
+                                              model="reject" if model_rejects else "answers"))
 
 
 # ----------------------------------------------------------------------------------------------------------
@@ -1494,6 +2147,8 @@ def minimise(chk, work):
                                                     impl=_short(impl[:3]) if impl[0] == "ok" else _short(impl),
                                                     expected=_short(("ok", v[2], None)),
                                                     shrunk_from_rows=len(case["rows"])))
+        elif case["kind"] == "calls":
+            return
         elif case["kind"] == "auto":
             def fails(steps):
                 c2 = dict(case, steps=steps)
@@ -1518,7 +2173,7 @@ def minimise(chk, work):
                 v = writer_spec_verdict(c2, run_impl_writer(c2, work))
                 return v is not None and v[0] == sig
 
-            if case.get("perm"):
+            if case.get("perm") or case.get("bperm"):
                 return
             apps = common.shrink_list(case["appends"], fails, min_len=0)
             small = dict(case, appends=apps)
@@ -1546,6 +2201,18 @@ def corpus_cases():
 
 
 def run_cases(chk, cases, work, tally=True, batch=1500):
+    if os.environ.get("VERIF_C13_TIMING"):
+        import time as _t
+        for kind in ("reader", "writer", "write1", "auto", "calls"):
+            sub = [c for c in cases if c["kind"] == kind]
+            t0 = _t.time()
+            _run_cases(chk, sub, work, tally, batch)
+            print(f"[timing] {kind}: {len(sub)} cases {_t.time() - t0:.1f}s")
+        return
+    _run_cases(chk, cases, work, tally, batch)
+
+
+def _run_cases(chk, cases, work, tally=True, batch=1500):
     rd = [c for c in cases if c["kind"] == "reader"]
     wr = [c for c in cases if c["kind"] == "writer"]
     for i in range(0, len(rd), batch):
@@ -1558,6 +2225,9 @@ def run_cases(chk, cases, work, tally=True, batch=1500):
         eval_write1_cases(chk, w1[i:i + batch], work, tally)
     for i in range(0, len(au), batch):
         eval_auto_cases(chk, au[i:i + batch], work, tally)
+    cl = [c for c in cases if c["kind"] == "calls"]
+    for i in range(0, len(cl), batch):
+        eval_calls_cases(chk, cl[i:i + batch], work, tally)
 
 
 def search(chk):
@@ -1569,10 +2239,11 @@ def search(chk):
         cases += [gen_writer_case(rng, 8) for _ in range(1000 * chk.budget_mult // 5)]
         cases += [gen_write1_case(rng, 8) for _ in range(400 * chk.budget_mult // 5)]
         cases += [gen_auto_case(rng, 8) for _ in range(800 * chk.budget_mult // 5)]
+        cases += [gen_calls_case(rng, 8) for _ in range(800 * chk.budget_mult // 5)]
         run_cases(chk, cases, work)
         if not chk.spec_violations:
-            run_cases(chk, exhaustive_readers(4) + exhaustive_writers(4) + exhaustive_write1(3) + exhaustive_auto(4),
-                      work)
+            run_cases(chk, exhaustive_readers(4) + exhaustive_writers(4) + exhaustive_write1(3) + exhaustive_auto(4)
+                      + exhaustive_calls(3), work)
         minimise(chk, work)
     finally:
         work.close()
@@ -1587,14 +2258,23 @@ def main(chk, args):
     try:
         run_cases(chk, corpus_cases(), work)
         quick = chk.tier == "quick"
-        cases = [gen_reader_case(rng) for _ in range(900 if quick else 9000)]
-        cases += [gen_writer_case(rng) for _ in range(500 if quick else 5000)]
+        cases = [gen_reader_case(rng) for _ in range(830 if quick else 9000)]
+        cases += [gen_writer_case(rng) for _ in range(470 if quick else 5000)]
         cases += [gen_write1_case(rng) for _ in range(80 if quick else 1200)]
         cases += [gen_auto_case(rng) for _ in range(90 if quick else 2200)]
+        cases += [gen_calls_case(rng) for _ in range(100 if quick else 2500)]
+        for _ in range(3 if quick else 40):
+            cases.append(gen_reader_case(rng, force_n=rng.choice([150, 257, 400] if quick else
+                                                                 [150, 257, 400, 1000, 2500, 5000])))
+        bigs = [(1203, 1000, "dicts"), (300, 64, "dataframe")] if quick else \
+            [(1203, 1000, "dicts"), (2500, 1000, "dicts"), (300, 64, "dataframe"), (1000, 7, "records"),
+             (2000, 1000, "dataframe"), (999, 1000, "dicts"), (1000, 1000, "records"), (3001, 1000, "dataframe")]
+        cases += [gen_writer_case(rng, big=b) for b in bigs]
         run_cases(chk, cases, work)
-        rejected_requests(chk, rng, work, 30 if quick else 200)
+        rejected_requests(chk, rng, work, 70 if quick else 600)
         ex = exhaustive_readers(2 if quick else 5) + exhaustive_writers(3 if quick else 5)
         ex += exhaustive_write1(2 if quick else 4) + (exhaustive_auto(2, 3) if quick else exhaustive_auto(5))
+        ex += exhaustive_calls(2 if quick else 4)
         run_cases(chk, ex, work)
         chk.extra["exhaustive_sweep"] = (
             f"{len(ex)} cases: rows 0..{2 if quick else 5} x chunk sizes 1..n+1 x (text, Parquet with every "
@@ -1603,7 +2283,10 @@ def main(chk, args):
             f"0..{3 if quick else 5} x both suffixes x buffer sizes 0..n+1 x 3 buffer kinds x all compositions of "
             "the rows into appends (with empty appends added for n<=3); one-shot write(data): rows "
             f"0..{2 if quick else 4} x both suffixes x buffer sizes 0/2/n+1 x stale file kinds; auto_finalize: {3 if quick else 4} writer "
-            f"pairs x every program of <= {2 if quick else 5} one-row appends to either or both writers")
+            f"pairs x every program of <= {2 if quick else 5} one-row appends to either or both writers; programs of "
+            f"calls: 4 object sets (two text objects unbuffered+buffered, one Parquet object) x every sequence of <= "
+            f"{2 if quick else 4} episodes over an alphabet of 3-5 episodes (write, runs initialised by one object and "
+            "continued by others)")
         minimise(chk, work)
     finally:
         work.close()
@@ -1624,6 +2307,15 @@ def main(chk, args):
         "a text file is parsed with the separator it was written with (reading with another separator is outside the "
         "model: csvReaderSep gives none); cells containing the separator rely on pandas' CSV quoting",
         "when the block under auto_finalize raises, the state of the files is not modelled (runAuto = none)",
+        "buffered appends whose columns / dict keys come in another order than the writer's are matched by name by "
+        "pandas (pd.concat, pd.DataFrame(list_of_dicts)); the Lean buffer is positional and exact on rows in writer "
+        "order only (ArgWF), so these cases are judged by the Python restatement of the specification alone",
+        "several writer objects for one file are modelled with a shared storage; for Parquet the open ParquetWriter "
+        "belongs to one object, so programs over Parquet files use one object (a second object's append_data raises "
+        "AttributeError in the code, not in the model)",
+        "a Parquet file with a stored pandas index has no counterpart in the Lean PqFile (rows labelled 0..n-1): such "
+        "fixtures are judged by the specification (two consistent views accepted) and compared with the model only "
+        "when the implementation labels the rows 0..n-1 over the data columns",
     ]
     chk.finish(build, RULE, search=search, lc=lc,
                trusted_extra=["pandas read_csv/to_csv/concat/iloc/rename, pyarrow Parquet read/write/iter_batches, "
